@@ -15,6 +15,7 @@ from lrv import VERIF
 
 TIER_TIMEOUT = {"quick": 600, "thorough": 3600}
 MEM_GB = float(os.environ.get("LRV_MEM_GB", "24"))
+PLAYBACK_MEM_GB = float(os.environ.get("LRV_PLAYBACK_MEM_GB", "46"))
 
 
 def partition(hs, nworkers):
@@ -101,9 +102,11 @@ def generate_playback(w, h, tier):
     env = dict(lrv.ENV)
     if lrv.BUILDS[w.build].get("rustflags"):
         env["RUSTFLAGS"] = lrv.BUILDS[w.build]["rustflags"]
-    log = os.path.join(w.logdir, "playback-gen-%s.log" % h.id)
+    log = os.path.join(w.logdir, "playback-gen-%s.log" % h.uid)
+    # concrete playback runs CBMC without formula slicing (needs 2-4x the memory of the plain run);
+    # it happens after the workers have finished, so it may use most of the machine
     lrv.run_cmd(cmd, os.path.join(w.scratch, "src"), log,
-                600 + 6 * (h.timeout or TIER_TIMEOUT[tier]), MEM_GB, env)
+                600 + 6 * (h.timeout or TIER_TIMEOUT[tier]), max(MEM_GB, PLAYBACK_MEM_GB), env)
     text = open(log, errors="replace").read()
     tests = re.findall(r"```\s*\n(.*?)```", text, flags=re.S)
     # keep cover witnesses too: Kani de-duplicates tests by their concrete values, so a witness
@@ -142,14 +145,14 @@ def native_playback(w, h, tests, prop):
         fh.write(body)
     rdir = os.path.join(VERIF, "replays", prop)
     os.makedirs(rdir, exist_ok=True)
-    rpath = os.path.join(rdir, "%s.rs" % h.id)
+    rpath = os.path.join(rdir, "%s.rs" % h.uid)
     with open(rpath, "w") as fh:
         fh.write("// counterexample for property %s, harness %s (%s)\n"
                  "// replay: python3 /verif/bin/check.py %s --replay %s\n"
                  "//@replay harness=%s build=%s file=%s\n%s" % (
                      prop, h.id, os.path.relpath(h.file, VERIF), prop, rpath, h.id, w.build,
                      os.path.relpath(h.file, VERIF), body))
-    return run_playback(w.scratch, w.build, names, w.logdir, h.id) + (rpath,)
+    return run_playback(w.scratch, w.build, names, w.logdir, h.uid) + (rpath,)
 
 
 def run_playback(scratch, build, names, logdir, tag):
@@ -245,7 +248,7 @@ def main():
     files, allh = lrv.discover()
     hs = [h for h in allh if prop in h.props and (tier == "thorough" or h.tier == "quick")]
     if a.only:
-        hs = [h for h in hs if re.search(a.only, h.id)]
+        hs = [h for h in hs if re.search(a.only, h.uid)]
     import engines
     extra = engines.jobs_for(prop, tier)
     if not hs and not extra:
@@ -319,7 +322,7 @@ def main():
                             entry["verdict"] = "inconclusive"
                             entry["reason"] += " | no concrete playback generated (see %s)" % glog
                             status = max(status, 2)
-                            lines.append("INCONCLUSIVE property=%s harness=%s: no concrete playback generated: %s" % (prop, h.id, entry["reason"][:400]))
+                            lines.append("INCONCLUSIVE property=%s harness=%s: no concrete playback generated: %s" % (prop, h.uid, entry["reason"][:400]))
                         else:
                             rep, out, rpath = native_playback(w, h, tests, prop)
                             n_replays += 1
@@ -328,17 +331,17 @@ def main():
                                 n_viol += 1
                                 status = 1
                                 lines.append("VIOLATION property=%s replay=%s" % (prop, rpath))
-                                lines.append("  harness %s: %s" % (h.id, "; ".join(
+                                lines.append("  harness %s: %s" % (h.uid, "; ".join(
                                     "%s @ %s" % (c["desc"], c["loc"]) for c in unknown)[:1500]))
                             else:
                                 entry["verdict"] = "inconclusive"
                                 entry["reason"] += " | counterexample did not reproduce natively"
                                 status = max(status, 2) if status != 1 else 1
-                                lines.append("INCONCLUSIVE property=%s harness=%s: counterexample did not reproduce natively: %s" % (prop, h.id, entry["reason"][:400]))
+                                lines.append("INCONCLUSIVE property=%s harness=%s: counterexample did not reproduce natively: %s" % (prop, h.uid, entry["reason"][:400]))
                 elif verdict == "inconclusive":
                     if status != 1:
                         status = 2
-                    lines.append("INCONCLUSIVE property=%s harness=%s: %s" % (prop, h.id, reason[:600]))
+                    lines.append("INCONCLUSIVE property=%s harness=%s: %s" % (prop, h.uid, reason[:600]))
                 hres.append(entry)
         for er in extra_results:
             hres.append(er["entry"])
